@@ -75,6 +75,10 @@ ASSUMPTIONS = [
     'of a participant): navigation across the association class that does not name the link class then reaches nothing through it',
     'loopctl family: control stop and return end the whole action from any depth of loops and conditionals (no statement behind '
     'them is executed, control stop delivers no value); break / continue act on the innermost enclosing loop',
+    'eqchain family: where clauses of select many / any from instances and of select many related by, made of two (and / or) '
+    'or three (and) equality terms selected.<attr> == <value> over the attributes N (values 0, 1 as literals and as variables), '
+    'K (1, 2) and Name ("x", ""), every ordered pair / triple incl. one attribute constrained twice with equal and with '
+    'different values, literal terms also with the operands the other way round, on the eight-instance population',
     'boolexpr family: precedence and associativity of the reference are those of the printer (mc.refs.oalast.LEVEL: or below and '
     'below the comparisons below the arithmetic operators below the unary operators; and / or group to the left, comparisons do not '
     'chain); the reference evaluates the tree, the interpreter the text printed with the fewest parentheses that keep the tree; '
@@ -1001,6 +1005,52 @@ def boolexpr_cases(tier):
     return out
 
 
+# ---------------------------------------------------------------------------
+# family eqchain (round 11, C04-22): where clauses that are chains of equality terms on `selected` -- the same attribute
+# constrained once, twice with one value, twice with two values; values as literals and as variables; both operand orders
+# ---------------------------------------------------------------------------
+
+def eq_terms():
+    sel = ('selected',)
+    terms = []
+    for attr, vals in (('N', [I(0), I(1), V('lo'), V('hi')]), ('K', [I(1), I(2)]), ('Name', [S('x'), S('')])):
+        for v in vals:
+            terms.append(B('==', ('field', sel, attr), v))
+    # the same terms with the operands the other way round (literal values only)
+    swapped = [B('==', t[3], t[2]) for t in terms if t[3][0] != 'var']
+    return terms, swapped
+
+
+def eqchain_cases(tier):
+    terms, swapped = eq_terms()
+    chains = []
+    for a in terms + swapped:
+        for b in terms + swapped:
+            chains.append(('and', [a, b]))
+    for a in terms:
+        for b in terms:
+            chains.append(('or', [a, b]))
+            for c in (terms if tier == 'thorough' else terms[:4]):
+                chains.append(('and', [a, b, c]))
+    out = []
+    pre = [ASG(V('lo'), I(0)), ASG(V('hi'), I(1))]
+    for op, ts in chains:
+        e = ts[0]
+        for t in ts[1:]:
+            e = B(op, e, t)
+        for context in ('where-many', 'where-any', 'where-related'):
+            if context == 'where-many':
+                tail = [('selfrom', 'many', 'rs', 'A', e, True), ('return', V('rs'))]
+            elif context == 'where-any':
+                tail = [('selfrom', 'any', 'x', 'A', e, True), ('return', V('x'))]
+            else:
+                tail = [('selrel', 'many', 'rs', V('as_'), [('A', 'R2', T('prev'))], e), ('return', V('rs'))]
+            attrs = [t[2][2] if t[2][0] == 'field' else t[3][2] for t in ts]
+            out.append(dict(family='eqchain', context=context, prog=bool_population() + pre + tail,
+                            repeated=len(set(attrs)) < len(attrs), op=op))
+    return out
+
+
 def is_mixed_bare(e):
     """Does the expression print an `and` and an `or` (or one of them and a comparison) with no parentheses between them?"""
     text = A.assemble(A.print_expression(e))[0]
@@ -1016,6 +1066,9 @@ def family_case(ctx, case):
     elif fam == 'loopctl':
         prog = case['prog']
         sig = 'c04:loopctl:%s' % case['control']
+    elif fam == 'eqchain':
+        prog = case['prog']
+        sig = 'c04:eqchain:%s' % case['context']
     elif fam == 'strlit':
         # (round 7, C04-14) programs run earlier in the same process that differ from this one in blank space inside the literal only
         for k, lit in enumerate(case.get('before', ())):
@@ -1069,6 +1122,9 @@ def family_task(sub, cases):
             sub.distinct('boolexpr_templates', repr(case['tmpl']))
             if is_mixed_bare(_fill(case['tmpl'], [V('p'), V('q'), V('r'), V('u')])):
                 sub.count('boolexpr_mixed_bare')
+        elif case['family'] == 'eqchain':
+            if case['repeated']:
+                sub.count('eqchain_one_attribute_constrained_twice')
         elif case['family'] == 'loopctl':
             sub.distinct('loopctl_shapes', (case['control'], case['guard'], case['loop']))
             if case['control'] in ('stop', 'return-value', 'return-bare'):
@@ -1404,7 +1460,8 @@ def run(ctx):
     cases = anyrel_cases(ctx.tier)
     cases = explorer.rotate(cases, ctx.seed)
     ctx.pmap(anyrel_task, [cases[i:i + 40] for i in range(0, len(cases), 40)])
-    fam = explorer.rotate(boolexpr_cases(ctx.tier) + rebind_cases(ctx.tier) + loopctl_cases(ctx.tier) + strlit_cases(ctx.tier), ctx.seed)
+    fam = explorer.rotate(boolexpr_cases(ctx.tier) + rebind_cases(ctx.tier) + loopctl_cases(ctx.tier) + strlit_cases(ctx.tier) +
+                          eqchain_cases(ctx.tier), ctx.seed)
     ctx.pmap(family_task, [fam[i::len(fam) // 25 + 1] for i in range(len(fam) // 25 + 1)])
     ctx.count('states', len(seen) + len(FAN_ORDERS[ctx.tier]) + len(fam))
     longest = max(seen.values(), key=len)
@@ -1420,6 +1477,9 @@ def run(ctx):
                 % ctx.n('anyrel_empty'))
     ctx.require(ctx.n('boolexpr_out_of_domain') == 0 and ctx.n('boolexpr_runs') >= 1500,
                 'boolexpr family: %d runs, %d programs the reference rejects' % (ctx.n('boolexpr_runs'), ctx.n('boolexpr_out_of_domain')))
+    ctx.require(ctx.n('eqchain_out_of_domain') == 0 and ctx.n('eqchain_one_attribute_constrained_twice') >= 300,
+                'eqchain family: %d runs constrain one attribute twice, %d programs the reference rejects'
+                % (ctx.n('eqchain_one_attribute_constrained_twice'), ctx.n('eqchain_out_of_domain')))
     ctx.require(ctx.n('boolexpr_mixed_bare') >= 150, 'too few runs of expressions mixing and / or without parentheses (%d)'
                 % ctx.n('boolexpr_mixed_bare'))
     ctx.require(ctx.n('rebind_runs') >= 1500 and ctx.n('rebind_empty_then_bound') >= 300,
@@ -1445,7 +1505,7 @@ def replay(ctx, case):
     if case.get('family') == 'anyrel':
         check_anyrel(ctx, case)
         return
-    if case.get('family') in ('boolexpr', 'rebind', 'loopctl', 'strlit'):
+    if case.get('family') in ('boolexpr', 'rebind', 'loopctl', 'strlit', 'eqchain'):
         family_case(ctx, case)
         return
     check_program(ctx, case['prog'], case.get('family', 'seq'))
